@@ -1432,3 +1432,49 @@ package spec
 //@   excluding lossless @@ nfKindAll(jv(data), "PathItemProps", "pathItem")
 //@   ensures  [C19] required-kept @@ result != nil ==> requiredPresent(jv(result), "pathItem")
 //@   excluding required-kept @@ nfKindAll(jv(data), "PathItemProps", "pathItem")
+
+// Kinds whose codecs are used opaquely (enc_T / dec_T) when a parent reaches them through json.Marshal / json.Unmarshal:
+// the parent's lemma assumes its members round-trip (the induction hypothesis), each kind's own lemma discharges it.
+//@ opaque PathItem, Response, Schema, Items, Parameter, Header, Operation, Info, ContactInfo, License, Tag, Responses, Paths, SecurityScheme, ExternalDocumentation, XMLObject, Swagger, SchemaOrBool, SchemaOrArray, StringOrArray, SchemaOrStringArray
+
+// ---- Paths: a map of path items flattened beside the extensions
+//@ axiom forall b []byte :: jsonValue(b) == decOf("interface{}", jv(b))
+//@ axiom forall b []byte :: jsonOK(b) == decOKOf("interface{}", jv(b))
+// an extension key starts with x or X, a path key with a slash
+//@ axiom forall k string :: triggers(isExtKey(k)) && (isExtKey(k) ==> !hasPrefix(k, "/"))
+//@ define isPathKey(k string) bool = hasPrefix(k, "/")
+
+//@ func (*Paths).UnmarshalJSON
+//@   property C01, C07
+//@   requires p != nil
+//@   assigns  p.Extensions, map(p.Extensions), p.Paths, map(p.Paths)
+//@   ensures  [C01] paths-kept @@ result == nil ==> (forall k string :: oCnt(jv(data), k) > 0 && isPathKey(k) ==> has(p.Paths, k) && p.Paths[k] == decOf("PathItem", oVal(jv(data), k)))
+//@   ensures  [C01] extensions-kept @@ result == nil ==> (forall k string :: oCnt(jv(data), k) > 0 && isExtKey(k) ==> has(p.Extensions, k) && p.Extensions[k] == decOf("interface{}", oVal(jv(data), k)))
+//@   ensures  [C07] only-paths-added @@ forall k string :: has(p.Paths, k) && !old(has(p.Paths, k)) ==> isPathKey(k) && oCnt(jv(data), k) > 0
+//@   ensures  [C07] only-extensions-added @@ forall k string :: has(p.Extensions, k) && !old(has(p.Extensions, k)) ==> isExtKey(k) && oCnt(jv(data), k) > 0
+//@   ensures  [C07] non-object-is-error @@ !isObj(jv(data)) ==> result != nil
+//@   ensures  [C07] decodable-object-accepted @@ isObj(jv(data)) && (forall k string :: oCnt(jv(data), k) > 0 ==> (isExtKey(k) ==> decOKOf("interface{}", oVal(jv(data), k))) && (isPathKey(k) ==> decOKOf("PathItem", oVal(jv(data), k)))) ==> result == nil
+//@   loop 0 invariant res != nil && (forall k string :: has(res, k) == (oCnt(jv(data), k) > 0)) && (forall k string :: has(res, k) ==> jv(res[k]) == oVal(jv(data), k))
+//@   loop 0 invariant (p.Extensions == old(p.Extensions) || (old(p.Extensions) == nil && fresh(p.Extensions))) && (p.Extensions == nil ==> (forall k string :: !($seen0[k] && isExtKey(k))))
+//@   loop 0 invariant (p.Paths == old(p.Paths) || (old(p.Paths) == nil && fresh(p.Paths))) && (p.Paths == nil ==> (forall k string :: !($seen0[k] && isPathKey(k))))
+//@   loop 0 invariant forall k string :: $seen0[k] && isExtKey(k) ==> has(p.Extensions, k) && p.Extensions[k] == decOf("interface{}", oVal(jv(data), k))
+//@   loop 0 invariant forall k string :: $seen0[k] && isPathKey(k) ==> has(p.Paths, k) && p.Paths[k] == decOf("PathItem", oVal(jv(data), k))
+//@   loop 0 invariant forall k string :: has(p.Extensions, k) && !old(has(p.Extensions, k)) ==> isExtKey(k) && $seen0[k]
+//@   loop 0 invariant forall k string :: has(p.Paths, k) && !old(has(p.Paths, k)) ==> isPathKey(k) && $seen0[k]
+//@   loop 0 invariant forall k string :: $seen0[k] ==> (isExtKey(k) ==> decOKOf("interface{}", oVal(jv(data), k))) && (isPathKey(k) ==> decOKOf("PathItem", oVal(jv(data), k)))
+
+//@ func (Paths).MarshalJSON
+//@   property C01, C06, C07
+//@   assigns  nothing
+//@   ensures  [C01] non-nil @@ result1 == nil ==> result0 != nil
+//@   ensures  [C01] members @@ result1 == nil ==> isObj(jv(result0)) && (forall k string :: oCnt(jv(result0), k) == ((has(p.Extensions, k) && isExtKey(k)) || (has(p.Paths, k) && isPathKey(k)) ? 1 : 0))
+//@   ensures  [C01] path-values @@ result1 == nil ==> (forall k string :: has(p.Paths, k) && isPathKey(k) ==> oVal(jv(result0), k) == encOf(p.Paths[k]))
+//@   ensures  [C01] extension-values @@ result1 == nil ==> (forall k string :: has(p.Extensions, k) && isExtKey(k) ==> oVal(jv(result0), k) == encOf(p.Extensions[k]))
+//@   loop 0 invariant pths != nil && (forall k string :: has(pths, k) == ($seen0[k] && isPathKey(k))) && (forall k string :: has(pths, k) ==> pths[k] == p.Paths[k])
+
+//@ func verifLemmaPathsRoundTrip
+//@   property C01
+//@   requires isObj(jv(data)) && noDuplicates(jv(data)) && nfExtensions(jv(data))
+//@   requires forall k string :: oCnt(jv(data), k) > 0 ==> isExtKey(k) || isPathKey(k)
+//@   requires forall k string :: oCnt(jv(data), k) > 0 && isPathKey(k) ==> decOKOf("PathItem", oVal(jv(data), k)) && encOf(decOf("PathItem", oVal(jv(data), k))) == oVal(jv(data), k)
+//@   ensures  [C01] lossless @@ result != nil ==> sameObject(jv(result), jv(data))
